@@ -21,7 +21,7 @@ VARIABLES l,           \* next event
           errs         \* sequence of <<line, tag>> (at most MaxErrs)
 
 tvars == <<l, cfgLine, commitLine, commitCfg, paid, errs>>
-MaxErrs == 8
+MaxErrs == 400
 
 TraceInit == l = 1 /\ cfgLine = 1 /\ commitLine = <<>> /\ commitCfg = <<>> /\ paid = {} /\ errs = <<>>
 
